@@ -72,7 +72,7 @@ pub fn session(authorized: bool, scenario: u8) -> (Sim, Vec<Vec<Bytes>>) {
             while sim.deliver_s2c(ATTACKER, ch, 0) {}
         }
     }
-    for kind in [CK::Ev, CK::Unord, CK::Unrel, CK::Map, CK::Trig] {
+    for kind in [CK::Ev, CK::Unord, CK::Unrel, CK::Map, CK::Trig, CK::List] {
         sim.step(&Step::EmitC { client: ATTACKER, kind, refslot: 0 });
     }
     sim.client_frame(ATTACKER);
@@ -101,7 +101,7 @@ pub fn inject_with_honest(sim: &mut Sim, msgs: &[(usize, Vec<u8>)], with_honest:
     let honest = sim.clients[HONEST].id;
     let mut expected: Vec<(CK, u32)> = Vec::new();
     if with_honest {
-        for kind in [CK::Ev, CK::Unord, CK::Unrel, CK::Map, CK::Trig] {
+        for kind in [CK::Ev, CK::Unord, CK::Unrel, CK::Map, CK::Trig, CK::List] {
             sim.step(&Step::EmitC { client: HONEST, kind, refslot: 0 });
             expected.push((kind, sim.seq));
         }
@@ -373,7 +373,7 @@ fn run_exhaustive(unit: &str, authorized: bool, ch: usize, len: usize, first: st
 
 pub struct C06;
 
-pub const NCH: usize = 7;
+pub const NCH: usize = 8;
 
 impl Prop for C06 {
     fn id(&self) -> &'static str {
@@ -388,9 +388,10 @@ impl Prop for C06 {
             }
         }
         if !q {
-            // length 3 on the acknowledgement channel and the protocol-hash trigger channel
+            // length 3 on the acknowledgement channel, the first event channel, the protocol-hash trigger channel and the
+            // channel of the event with length-prefixed collections
             for auth in [false, true] {
-                for ch in [0usize, 1, 6] {
+                for ch in [0usize, 1, 6, 7] {
                     for k in 0..16u32 {
                         v.push(Unit::new(&format!("exh3_{}_{ch}_{k:02}", auth as u8), 1).with(json!({"auth": auth, "ch": ch, "len": 3, "lo": k * 16, "hi": k * 16 + 16})).fixed());
                     }
